@@ -37,6 +37,10 @@ CHECKS = {
    text="The chosen QR version is compared with the minimum computed from the standard's capacity formulae for every mode x level at every per-version boundary (quick) and every length 1..cap(40)+1 (thorough), forced versions accepted/refused exactly; Data Matrix lookup is compared with the first admissible row of the reference table for every codeword count x shape x (min,max) pair, and at writer level with digit strings of known codeword count.",
    note="Trusted: capacity formulae in internal/qrref and the attribute table in internal/dmref, both anchored to the published figures (7089/4296/2953/1817, 1558) at the start of every run.",
    tech="exhaustive enumeration against an independently computed minimum"),
+ "C02": dict(cat="exploration", ref="DESIGN.md §4 C02",
+   text="Grammar-based property testing: Latin-1 texts built from runs over ten character classes (so that every encodation mode, latch, unlatch and end-of-data rule is reached), macro envelopes, shape / min / max hints and forced sizes, checked at codeword level (hundreds of thousands of cases) and through the full writer -> image -> pure-barcode reader pipeline for all 30 sizes; oracle = termination (watchdog with isolated re-run), exact round trip, refusal of non-Latin-1 text, acceptance whenever the plain ASCII encodation + 16 codewords fits.",
+   note="Trusted: the ASCII-length sufficient condition for 'fits'; x/text is not involved. The check cannot show optimality of the encodation, only correctness of what is produced.",
+   tech="grammar-based round-trip property testing (rapid) with a termination watchdog"),
 }
 
 NOT_YET = {}
